@@ -103,6 +103,9 @@ func sortPorts(p *types.Project) {
 	}
 }
 
+// the project environment of every C03 load: one variable set to the empty string, one to a value
+var c03Env = map[string]string{"EMPTYVAR": "", "SETVAR": "set"}
+
 func C03(c *core.Ctx) {
 	c.Assumption("TLC 1.8.0; spec/tree/Canonical.tla written from the Compose short-syntax grammars; differential oracle: the document with the short spelling and the document with the spec's long form are both loaded by the real loader (port lists compared as multisets)")
 	work := filepath.Join(c.Work, "wd")
@@ -145,7 +148,7 @@ func C03(c *core.Ctx) {
 		shortTxt, _ := json.Marshal(short)
 		valid := asBool(cs["valid"])
 		c.Eval(name+"|"+string(shortTxt), true)
-		ps, es := safeLoad(work, nil, []namedDoc{{Name: filepath.Join(work, "compose.yaml"), Content: shortDoc}})
+		ps, es := safeLoad(work, c03Env, []namedDoc{{Name: filepath.Join(work, "compose.yaml"), Content: shortDoc}})
 		rep := map[string]interface{}{"attribute": name, "short": short, "long": plainOf(cs["long"]), "valid": valid}
 		if n%41 == 1 {
 			c.Sample(rep)
@@ -170,14 +173,14 @@ func C03(c *core.Ctx) {
 				d["services"].(map[string]interface{})["a"] = map[string]interface{}{"extends": map[string]interface{}{"file": "ext/base.yaml", "service": "b"}}
 				mb, _ := json.Marshal(d)
 				c.Eval(name+"|extended-file|"+string(shortTxt), true)
-				if pe, ee := safeLoad(work, nil, []namedDoc{{Name: filepath.Join(work, "compose.yaml"), Content: string(mb)}}); ee == nil {
+				if pe, ee := safeLoad(work, c03Env, []namedDoc{{Name: filepath.Join(work, "compose.yaml"), Content: string(mb)}}); ee == nil {
 					c.Report(core.Finding{Sig: "invalid-accepted-in-extended-file:" + name, Detail: fmt.Sprintf("%s: short form %s is outside the grammar but loads when it sits on a service extended from another file (as %+v / %+v / %+v)", name, shortTxt, pe.Services["a"].Ports, pe.Services["a"].Volumes, pe.Services["a"].Devices), Replay: rep})
 				}
 			}
 			return nil
 		}
 		longDoc := docWith(path, plainOf(cs["long"]))
-		pl, el := safeLoad(work, nil, []namedDoc{{Name: filepath.Join(work, "compose.yaml"), Content: longDoc}})
+		pl, el := safeLoad(work, c03Env, []namedDoc{{Name: filepath.Join(work, "compose.yaml"), Content: longDoc}})
 		switch {
 		case el != nil && es != nil:
 			c.Report(core.Finding{Sig: "both-rejected:" + name, Detail: fmt.Sprintf("%s: neither the short form %s (%v) nor its long form loads (%v)", name, shortTxt, es, el), Replay: rep})
@@ -196,8 +199,8 @@ func C03(c *core.Ctx) {
 			if ov, ok := cs["over"]; ok && asStr(asMap(ov)["t"]) != "n" {
 				overDoc := docWith(path, plainOf(ov))
 				c.Eval(name+"|over|"+string(shortTxt), true)
-				pso, eso := safeLoad(work, nil, []namedDoc{{Name: filepath.Join(work, "compose.yaml"), Content: shortDoc}, {Name: filepath.Join(work, "over.yaml"), Content: overDoc}})
-				plo, elo := safeLoad(work, nil, []namedDoc{{Name: filepath.Join(work, "compose.yaml"), Content: longDoc}, {Name: filepath.Join(work, "over.yaml"), Content: overDoc}})
+				pso, eso := safeLoad(work, c03Env, []namedDoc{{Name: filepath.Join(work, "compose.yaml"), Content: shortDoc}, {Name: filepath.Join(work, "over.yaml"), Content: overDoc}})
+				plo, elo := safeLoad(work, c03Env, []namedDoc{{Name: filepath.Join(work, "compose.yaml"), Content: longDoc}, {Name: filepath.Join(work, "over.yaml"), Content: overDoc}})
 				rep["override"] = plainOf(ov)
 				// and with the short / long form on a base service of the same file that `a` extends and refines
 				if len(path) == 3 && path[0] == "services" && path[1] == "a" {
@@ -209,8 +212,8 @@ func C03(c *core.Ctx) {
 						b, _ := json.Marshal(d)
 						return string(b)
 					}
-					pse, ese := safeLoad(work, nil, []namedDoc{{Name: filepath.Join(work, "compose.yaml"), Content: ext(short)}})
-					ple, ele := safeLoad(work, nil, []namedDoc{{Name: filepath.Join(work, "compose.yaml"), Content: ext(plainOf(cs["long"]))}})
+					pse, ese := safeLoad(work, c03Env, []namedDoc{{Name: filepath.Join(work, "compose.yaml"), Content: ext(short)}})
+					ple, ele := safeLoad(work, c03Env, []namedDoc{{Name: filepath.Join(work, "compose.yaml"), Content: ext(plainOf(cs["long"]))}})
 					c.Eval(name+"|extends|"+string(shortTxt), true)
 					switch {
 					case (ese == nil) != (ele == nil):
